@@ -125,7 +125,7 @@ def mk_cmp(op, l, r):
 
 
 class Normalizer(object):
-    def __init__(self, env=None, resolver=None, transparent_calls=(), keep_casts=False):
+    def __init__(self, env=None, resolver=None, transparent_calls=(), keep_casts=False, ordered_add=False):
         """env: name -> normal form (or AST) substituted for Names.
         resolver: callable(Name node) -> AST expr or None, to inline single reaching definitions."""
         self.env = env or {}
@@ -134,6 +134,7 @@ class Normalizer(object):
         if keep_casts:
             self.transparent = set(transparent_calls)
         self._depth = 0
+        self.ordered_add = ordered_add
 
     def n(self, e):
         m = getattr(self, 'n_' + type(e).__name__, None)
@@ -199,6 +200,12 @@ class Normalizer(object):
         l, r = self.n(e.left), self.n(e.right)
         op = type(e.op).__name__
         if op == 'Add':
+            if self.ordered_add:
+                # concatenation of sequences/strings: associative, not commutative
+                parts = []
+                for x in (l, r):
+                    parts += list(x[1]) if (isinstance(x, tuple) and x and x[0] == 'cat') else [x]
+                return ('cat', tuple(parts))
             return mk_add([l, r])
         if op == 'Sub':
             return mk_add([l, mk_mul([num(-1), r])])
@@ -465,3 +472,119 @@ def norm_block(stmts, env=None, keep_messages=False):
     def blk(ss):
         return tuple(x for x in (st(s) for s in ss) if x is not None)
     return blk(stmts)
+
+
+# ---------------------------------------------------------------------------
+# pattern matching with metavariables (renaming-robust statement inventories)
+
+AC_HEADS = {'add', 'mul', 'and', 'or', 'BitAnd', 'BitOr', 'BitXor'}
+
+
+def unify(pat, term, binding, metas):
+    """Match normal form `pat` (whose ('var', M) leaves with M in `metas` are metavariables) against
+    `term`; returns an extended binding or None.  Metavariables bind consistently and injectively
+    to variable or attribute terms (never to compound arithmetic), so the match is up to renaming
+    only.  `metas` may be a dict name -> alias group: metavariables of one group may share a code
+    name.  Operands of commutative nodes are matched in any order."""
+    for b in _unify(pat, term, binding, metas):
+        return b
+    return None
+
+
+def _group(metas, m):
+    return metas.get(m, m) if isinstance(metas, dict) else m
+
+
+def _unify(pat, term, binding, metas):
+    if isinstance(pat, tuple) and len(pat) == 2 and pat[0] == 'var' and pat[1] in metas:
+        m = pat[1]
+        if m in binding:
+            if binding[m] == term:
+                yield binding
+            return
+        if isinstance(term, tuple) and term and term[0] in ('var', 'attr', 'param', 'bound'):
+            for k, v in binding.items():
+                if v == term and _group(metas, k) != _group(metas, m):
+                    return          # injective across alias groups
+            b = dict(binding)
+            b[m] = term
+            yield b
+        return
+    if isinstance(pat, tuple) and isinstance(term, tuple):
+        if len(pat) != len(term):
+            return
+        if pat and pat[0] in AC_HEADS and term[0] == pat[0]:
+            if pat[0] in ('add', 'mul'):
+                po, to = pat[1], term[1]
+                if len(po) != len(to):
+                    return
+                for b in _unify_perm(list(po), list(to), binding, metas):
+                    yield b
+                return
+            po, to = list(pat[1:]), list(term[1:])
+            if len(po) == 1 and isinstance(po[0], tuple) and po[0] and not isinstance(po[0][0], str):
+                po, to = list(po[0]), list(to[0])     # ('BitAnd', (a, b)) form
+                for b in _unify_perm(po, to, binding, metas):
+                    yield b
+                return
+            for b in _unify_perm(po, to, binding, metas):
+                yield b
+            return
+        for b in _unify_seq(list(pat), list(term), binding, metas):
+            yield b
+        return
+    if pat == term:
+        yield binding
+
+
+def _unify_seq(ps, ts, binding, metas):
+    if not ps:
+        yield binding
+        return
+    for b in _unify(ps[0], ts[0], binding, metas):
+        for b2 in _unify_seq(ps[1:], ts[1:], b, metas):
+            yield b2
+
+
+def _unify_perm(ps, ts, binding, metas):
+    if not ps:
+        yield binding
+        return
+    p = ps[0]
+    for i, t in enumerate(ts):
+        for b in _unify(p, t, binding, metas):
+            for b2 in _unify_perm(ps[1:], ts[:i] + ts[i + 1:], b, metas):
+                yield b2
+
+
+def stmt_nf(st, N=None):
+    """Normal form of one simple statement or of the header of a compound one."""
+    N = N or Normalizer()
+    if isinstance(st, ast.Assign):
+        return ('assign', tuple(N.n(t) for t in st.targets), N.n(st.value))
+    if isinstance(st, ast.AugAssign):
+        return ('aug', type(st.op).__name__, N.n(st.target), N.n(st.value))
+    if isinstance(st, ast.Expr):
+        return ('expr', N.n(st.value))
+    if isinstance(st, ast.Return):
+        return ('return', N.n(st.value) if st.value is not None else None)
+    if isinstance(st, ast.Raise):
+        e = st.exc
+        return ('raise', dotted(e.func) if isinstance(e, ast.Call) else (N.n(e) if e is not None else None))
+    if isinstance(st, (ast.If, ast.While)):
+        return (type(st).__name__.lower(), N.n(st.test))
+    if isinstance(st, ast.For):
+        return ('for', N.n(st.target), N.n(st.iter))
+    if isinstance(st, (ast.Break, ast.Continue, ast.Pass)):
+        return (type(st).__name__.lower(),)
+    return ('stmt', ast.dump(st))
+
+
+def parse_pattern(src, N=None):
+    """'if X > 0:' / 'for A in B:' / 'while C:' headers or a simple statement -> normal form."""
+    s = src.strip()
+    if s.endswith(':') and s.split()[0] in ('if', 'elif', 'while', 'for'):
+        if s.startswith('elif'):
+            s = s[2:]
+        s = s + '\n    pass\n'
+    return stmt_nf(ast.parse(s).body[0], N)
